@@ -599,6 +599,24 @@ func genIsoBatch(t *rapid.T, st *Stats) *isoBatch {
 		}
 		hasPegReq, other = true, true
 	}
+	// legacy era: A sends nearly all of its PEG away, requests PEG, then sends a little more PEG than is
+	// left: every transaction alone is covered by the starting balance and the running check (which
+	// credits the requested PEG at once) lets the batch through, but the store — where the PEG credit is
+	// deferred — refuses the last debit (the shape behind C16/mixed-peg-batch)
+	if legacy && w.Bal(owner, TPEG) > 1000 && rapid.IntRange(0, 3).Draw(t, "spendDeferredCredit") == 0 {
+		a := assets[1+rapid.IntRange(0, len(assets)-2).Draw(t, "dcAsset")]
+		peg0 := w.Bal(owner, TPEG)
+		left := uint64(rapid.IntRange(1, 50).Draw(t, "dcLeft"))
+		to1 := w.Actors[1+rapid.IntRange(0, 3).Draw(t, "dcTo1")]
+		to2 := w.Actors[1+rapid.IntRange(0, 3).Draw(t, "dcTo2")]
+		ib.Involved = append(ib.Involved, to1.AddrHex(), to2.AddrHex())
+		away := Tx{From: owner.FA(), Asset: "PEG", Amt: peg0 - left, Outs: []Xfer{{To: to1.FA(), Amt: peg0 - left}}}
+		req := Tx{From: owner.FA(), Asset: Tickers[a-1], Amt: w.Bal(owner, a)/2 + 1, Conv: "PEG"}
+		more := left + uint64(rapid.IntRange(1, 200).Draw(t, "dcMore"))
+		spend := Tx{From: owner.FA(), Asset: "PEG", Amt: more, Outs: []Xfer{{To: to2.FA(), Amt: more}}}
+		txs = []Tx{away, req, spend}
+		hasPegReq, other = true, true
+	}
 	// make sure it is held: at least one conversion
 	conv := false
 	for _, x := range txs {
